@@ -1,37 +1,65 @@
 /-
-C25 — the writer's visit discipline for conditional / statement / return nodes (loop-free fragment):
+C25 — the writer's visit discipline for conditional / statement / return / LOOP nodes:
   writer.py  visit_node (follow stacks, `visited_nodes`, return nodes are re-emitted),
-             visit_cond_node (both-branches-same comment form, negate-and-swap decision, if / else / follow order),
-             visit_statement_node, visit_return_node.
-Output: the sequence of conditional nodes whose condition is printed (`cond.visit_cond(self)`), each with the flag
-"negated and swapped before printing".  Switch / try / loop nodes are not in this fragment (`loop_follow[-1]`,
-`next_case`, `latch_node[-1]`, `switch_follow[-1]`, `try_follow[-1]` are all None).
+             visit_cond_node (both-branches-same comment form, loop-follow `break` form, negate-and-swap decisions,
+             if / else / follow order), visit_statement_node (break when the successor is the loop follow),
+             visit_return_node, visit_loop_node (pre-tested `while (cond)`, post-tested `do … while(latch cond)`, endless).
+Output: the sequence of print events `x.visit_cond(self)`: (node being visited when the print happens, node object whose
+condition is printed, "negated and swapped just before").  Switch / try nodes are not in this fragment
+(`next_case`, `switch_follow[-1]`, `try_follow[-1]` are None).
 Imports nothing.
 -/
 namespace AgVerif.WriterVisit
+
+inductive LoopType | pretest | posttest | endless
+  deriving Repr, Inhabited, DecidableEq
 
 inductive WKind
   | cond (t f : Nat) (follow : Option Nat)      -- cond.true, cond.false, cond.follow['if']
   | stmt (suc : Option Nat)                     -- graph.sucs(stmt) has one element or none
   | ret
+  /-- LoopBlock: looptype, loop.cond (the node it wraps), loop.latch, loop.true, loop.false, loop.follow['loop'] -/
+  | loop (lt : LoopType) (cond latch t f : Nat) (follow : Option Nat)
   deriving Repr, Inhabited, DecidableEq
 
 structure WGraph where
   kind : Nat → Option WKind
   num : Nat → Nat                               -- node.num (reverse post-order number)
 
+/-- a print event: visited node that triggers it, node object whose condition is written, swapped? -/
+structure Ev where
+  trigger : Nat
+  obj : Nat
+  swapped : Bool
+  deriving Repr, Inhabited, DecidableEq
+
 structure WState where
   visited : List Nat
-  out : List (Nat × Bool)                       -- (node whose condition is printed, swapped?)
+  out : List Ev
+  deriving Repr, Inhabited
+
+/-- `if_follow`, `loop_follow`, `latch_node` (top first; the bottom `None` of the real lists is the empty list) -/
+structure Stacks where
+  ifs : List (Option Nat)
+  loops : List (Option Nat)
+  latches : List (Option Nat)
   deriving Repr, Inhabited
 
 def top (s : List (Option Nat)) : Option Nat := match s with | [] => none | x :: _ => x
 
-/-- `visit_node(node)` with an explicit recursion budget (`fuel`); `ifs` is the `if_follow` stack (top first). -/
-def visitNode (g : WGraph) : Nat → List (Option Nat) → Nat → WState → WState
+/-- whose condition `n.visit_cond(writer)` writes: LoopBlock.visit_cond delegates to the node it wraps -/
+def objOf (g : WGraph) (n : Nat) : Nat :=
+  match g.kind n with
+  | some (.loop _ c _ _ _ _) => c
+  | _ => n
+
+def emit (n obj : Nat) (sw : Bool) (st : WState) : WState := { st with out := st.out ++ [⟨n, obj, sw⟩] }
+
+/-- `visit_node(node)` with an explicit recursion budget (`fuel`). -/
+def visitNode (g : WGraph) : Nat → Stacks → Nat → WState → WState
   | 0, _, _, st => st
-  | fuel + 1, ifs, n, st =>
-    if top ifs == some n then st
+  | fuel + 1, sk, n, st =>
+    if top sk.ifs == some n || top sk.loops == some n || top sk.latches == some n then st
     else
       -- `if not node.type.is_return and node in self.visited_nodes: return`
       if g.kind n != some .ret && st.visited.contains n then st
@@ -41,25 +69,53 @@ def visitNode (g : WGraph) : Nat → List (Option Nat) → Nat → WState → WS
         | none => st
         | some .ret => st
         | some (.stmt none) => st
-        | some (.stmt (some s)) => visitNode g fuel ifs s st
+        | some (.stmt (some s)) =>
+          if top sk.loops == some s then st            -- break;
+          else visitNode g fuel sk s st
         | some (.cond t f follow) =>
           if f == t then
             -- "Both branches of the condition point to the same code."
-            let st := { st with out := st.out ++ [(n, false)] }
-            visitNode g fuel ifs t st
+            visitNode g fuel sk t (emit n n false st)
           else
+            let sw1 := top sk.loops == some f
+            let (t, f) := if sw1 then (f, t) else (t, f)
+            if top sk.loops == some t || top sk.loops == some f then
+              -- if (cond) { break; }   then the other branch
+              visitNode g fuel sk f (emit n n sw1 st)
+            else
+              match follow with
+              | some fo =>
+                let sw := t == fo || g.num n > g.num t
+                let (t, f) := if sw then (f, t) else (t, f)
+                let sk' := { sk with ifs := some fo :: sk.ifs }
+                let st := visitNode g fuel sk' t (emit n n sw st)
+                let isElse := !(fo == t || fo == f)
+                let st := if isElse && !st.visited.contains f then visitNode g fuel sk' f st else st
+                visitNode g fuel sk fo st
+              | none =>
+                let st := visitNode g fuel sk t (emit n n false st)
+                visitNode g fuel sk f st
+        | some (.loop lt c latch t f follow) =>
+          match lt with
+          | .pretest =>
+            let sw := follow == some t
+            let (t, _f) := if sw then (f, t) else (t, f)
+            let st := emit n c sw st                                   -- while (cond) {
+            let st := visitNode g fuel { sk with loops := follow :: sk.loops } t st
             match follow with
-            | some fo =>
-              let sw := t == fo || g.num n > g.num t
-              let (t, f) := if sw then (f, t) else (t, f)
-              let st := { st with out := st.out ++ [(n, sw)] }
-              let st := visitNode g fuel (some fo :: ifs) t st
-              let isElse := !(fo == t || fo == f)
-              let st := if isElse && !st.visited.contains f then visitNode g fuel (some fo :: ifs) f st else st
-              visitNode g fuel ifs fo st
-            | none =>
-              let st := { st with out := st.out ++ [(n, false)] }
-              let st := visitNode g fuel ifs t st
-              visitNode g fuel ifs f st
+            | some fo => visitNode g fuel sk fo st
+            | none => st
+          | .posttest =>
+            let st := visitNode g fuel { sk with loops := follow :: sk.loops, latches := some latch :: sk.latches } c st
+            let st := emit n (objOf g latch) false st                   -- } while(latch cond);
+            match follow with
+            | some fo => visitNode g fuel sk fo st
+            | none => st
+          | .endless =>
+            let st := visitNode g fuel { sk with loops := follow :: sk.loops } c st
+            let st := visitNode g fuel sk latch st
+            match follow with
+            | some fo => visitNode g fuel sk fo st
+            | none => st
 
 end AgVerif.WriterVisit
